@@ -115,10 +115,35 @@ Theorem C14_requiretls cfg o bm :
   mail_param cfg (bs "REQUIRETLS") [] o bm = inl (set_requiretls o true, bm).
 Proof. intros H. unfold mail_param. cbv beta zeta. keys. rewrite H. reflexivity. Qed.
 
-(* BODY=8BITMIME, the only BODY value the client ever writes (F14) *)
-Theorem C14_body_8bitmime cfg o bm :
-  mail_param cfg (bs "BODY") (bs "8BITMIME") o bm = inl (set_body o (bs "8BITMIME"), bm).
-Proof. unfold mail_param. cbv beta zeta. keys. reflexivity. Qed.
+(* BODY: each of the three values arrives as given; BINARYMIME needs
+   EnableBINARYMIME and raises the connection's binarymime flag (DATA is
+   refused from then on: RFC 3030 wants BDAT) *)
+Definition is_binarymime (v : bytes) : bool := bytes_eqb v (bs "BINARYMIME").
+
+Definition body_value (v : bytes) : Prop :=
+  v = bs "7BIT" \/ v = bs "8BITMIME" \/ v = bs "BINARYMIME".
+
+Theorem C14_body_param cfg v o bm :
+  body_value v -> (v = bs "BINARYMIME" -> cf_binarymime cfg = true) ->
+  mail_param cfg (bs "BODY") v o bm = inl (set_body o v, bm || is_binarymime v).
+Proof.
+  intros [-> | [-> | ->]] Hb; unfold mail_param, is_binarymime; cbv beta zeta; keys.
+  - change (to_upper (bs "7BIT")) with (bs "7BIT"). keys. cbn [orb]. rewrite orb_false_r. reflexivity.
+  - change (to_upper (bs "8BITMIME")) with (bs "8BITMIME"). keys. cbn [orb]. rewrite orb_false_r. reflexivity.
+  - change (to_upper (bs "BINARYMIME")) with (bs "BINARYMIME"). keys.
+    rewrite (Hb eq_refl), orb_true_r. reflexivity.
+Qed.
+
+(* the only BODY value a server without EnableBINARYMIME refuses; such a server
+   does not advertise BINARYMIME, so the client never sends it (C14_body) *)
+Theorem C14_body_binarymime_disabled cfg o bm :
+  cf_binarymime cfg = false ->
+  mail_param cfg (bs "BODY") (bs "BINARYMIME") o bm
+  = inr (504, (5, 5, 4), bs "BINARYMIME is not implemented")%Z.
+Proof.
+  intros H. unfold mail_param. cbv beta zeta. keys.
+  change (to_upper (bs "BINARYMIME")) with (bs "BINARYMIME"). keys. rewrite H. reflexivity.
+Qed.
 
 (* SIZE: every n < 2^63 (int64), within the server's limit if there is one *)
 Theorem C14_size cfg n o bm :
